@@ -27,8 +27,29 @@ pub(crate) fn escape_html_quote(s: &str) -> Cow<'_, str> {
     })
 }
 
+/// Quote a string as a JavaScript string literal.
+///
+/// Only escape forms that are also accepted by the expression parser are used,
+/// and none of them depends on the character that follows
+/// (no `\0` , which is a legacy octal escape when a digit follows, and no `\u{...}` ).
 pub(crate) fn gen_lit_str(s: &str) -> String {
-    format!("{:?}", s)
+    let mut ret = String::with_capacity(s.len() + 2);
+    ret.push('"');
+    for c in s.chars() {
+        match c {
+            '"' => ret.push_str("\\\""),
+            '\\' => ret.push_str("\\\\"),
+            '\n' => ret.push_str("\\n"),
+            '\r' => ret.push_str("\\r"),
+            '\t' => ret.push_str("\\t"),
+            '\0'..='\x1f' | '\x7f'..='\u{9f}' | '\u{2028}' | '\u{2029}' => {
+                ret.push_str(&format!("\\u{:04x}", c as u32));
+            }
+            c => ret.push(c),
+        }
+    }
+    ret.push('"');
+    ret
 }
 
 /// Spell a float so that both JavaScript and the expression parser read the same value back.
